@@ -97,7 +97,13 @@ def gen(seed: int, tier: str) -> dict[str, Any]:
            "lowest_free_sid": rng.random() < 0.5,
            # the TCP connection dies while the first connect() waits for its SessionResponse: the reconnect's connect() runs
            # while the first one is still pending, and the one SessionResponse that arrives then wakes both
-           "close_in_handshake": rng.choice([0.05, 0.3, 0.9]) if (not clean) and rng.random() < 0.1 else None}
+           "close_in_handshake": rng.choice([0.05, 0.3, 0.9]) if (not clean) and rng.random() < 0.1 else None,
+           "shadow": rng.random() < 0.2}
+    if (not clean) and rng.random() < 0.06 and not (cfg["bad_dev_mac"] or cfg["auth_fail"] or cfg["auth_refused_first"]
+                                                     or cfg["close_in_handshake"]):
+        # the gateway does not answer the first SessionAuthenticate; the caller of connect() gives up (wait_for) after this
+        # long and calls connect() again on the same object, without a disconnect() in between
+        cfg["abandon_first_connect"] = rng.choice([0.05, 0.3, 1.0])
     if cfg["bad_dev_mac"] or cfg["auth_fail"]:
         cfg["auth_refused_first"] = 0
         cfg["close_in_handshake"] = None
@@ -123,6 +129,8 @@ def run(plan: dict[str, Any]) -> dict[str, Any]:
         gw.auth_result = 1
     elif cfg.get("auth_refused_first"):
         gw.auth_results = [rng.choice([1, 2, 3])] * cfg["auth_refused_first"]     # failed / unauthenticated / timeout status
+    elif cfg.get("abandon_first_connect"):
+        gw.auth_results = [None]
     delivered: list[tuple[int, int]] = []      # (svc, id) reaching registered callbacks
     expected: list[tuple[int, int]] = []       # model
     last_acc: dict[int, int] = {}              # per tcp connection: last accepted counter (model)
@@ -256,6 +264,15 @@ def run(plan: dict[str, Any]) -> dict[str, Any]:
         tasks = []
 
         async def do_connect():
+            if cfg.get("abandon_first_connect"):
+                try:
+                    await asyncio.wait_for(tunnel.connect(), cfg["abandon_first_connect"])
+                    info["connect"] = "ok"
+                    return
+                except TimeoutError:
+                    R.extra_faults["first_connect_abandoned_by_its_caller"] += 1
+                except CommunicationError as exc:
+                    info["connect"] = f"failed:{type(exc).__name__}"
             # (one more attempt when the very first one dies with its TCP connection during the handshake)
             for attempt in range(1 + cfg.get("auth_refused_first", 0) + (1 if cfg.get("close_in_handshake") else 0)):
                 try:
@@ -388,7 +405,32 @@ def run(plan: dict[str, Any]) -> dict[str, Any]:
         for op in plan["ops"]:
             if op["op"] in ("inject", "send", "server_close", "replay_attack", "seq_exhaust"):
                 loop.at(t0 + op["t"], (lambda o=op: do(o)), label="op")
+        sh_task = None
+        if cfg.get("shadow"):
+            # a second secure session of the same process, to another device - which also numbers its sessions from 1: it
+            # comes and goes while the judged session receives
+            async def second_session():
+                gw2 = SecureGateway(net, random.Random(plan["seed"] ^ 0x5AD0), ip="10.0.0.77")
+                t2 = SecureTunnel(XKNX(), cemi_received_callback=lambda raw: None, gateway_ip=gw2.ip, gateway_port=gw2.port,
+                                  user_id=2, user_password="user", device_authentication_password="dev", auto_reconnect=False)
+                srng = random.Random(plan["seed"] ^ 0x5AD1)
+                for _ in range(3):
+                    await asyncio.sleep(srng.uniform(0.05, max(0.1, cfg["horizon"] / 4)))
+                    try:
+                        await t2.connect()
+                        R.extra_faults["second_secure_session_connected_meanwhile"] += 1
+                        await asyncio.sleep(srng.uniform(0.05, max(0.1, cfg["horizon"] / 4)))
+                        await t2.disconnect()
+                    except CommunicationError:
+                        pass
+            sh_task = loop.create_task(second_session())
         await asyncio.sleep(cfg["horizon"] + 2.0)
+        if sh_task is not None:
+            if not sh_task.done():
+                await asyncio.wait([sh_task], timeout=30.0)
+            if not sh_task.done():
+                sh_task.cancel()
+            await asyncio.gather(sh_task, return_exceptions=True)
         try:
             await tunnel.disconnect()
         except CommunicationError:
